@@ -286,6 +286,18 @@ func (rw *rewriter) file(f *ast.File) {
 					used = true
 				}
 			}
+			if sel, ok := n.Fun.(*ast.SelectorExpr); ok && sel.Sel.Name == "Range" && len(n.Args) == 1 && !isTest {
+				// S3: sync.Map iteration order
+				if t := rw.info.TypeOf(sel.X); t != nil && (t.String() == "sync.Map" || t.String() == "*sync.Map") {
+					recv := sel.X
+					if t.String() == "sync.Map" {
+						recv = &ast.UnaryExpr{Op: token.AND, X: sel.X}
+					}
+					c.Replace(&ast.CallExpr{Fun: simrtSel("SyncMapRange"), Args: []ast.Expr{recv, n.Args[0]}})
+					rw.cen.Rules["sync.Map.Range"]++
+					used = true
+				}
+			}
 			if sel, ok := n.Fun.(*ast.SelectorExpr); ok && sel.Sel.Name == "MapRange" && len(n.Args) == 0 {
 				if t := rw.info.TypeOf(sel.X); t != nil && t.String() == "reflect.Value" {
 					c.Replace(&ast.CallExpr{Fun: simrtSel("MapRange"), Args: []ast.Expr{sel.X}})
